@@ -81,7 +81,7 @@ PROPS = {
         'builds': {'default': {}},
         'tiers': {
             'quick': {'runs': 1500, 'params': {'max_nodes': 30, 'all_offsets_upto': 512}, 'per_run_timeout': 5.0},
-            'thorough': {'runs': 40000, 'params': {'max_nodes': 40, 'all_offsets_upto': 8192}, 'per_run_timeout': 20.0, 'shrink_budget_s': 300},
+            'thorough': {'runs': 80000, 'params': {'max_nodes': 40, 'all_offsets_upto': 8192}, 'per_run_timeout': 20.0, 'shrink_budget_s': 300},
         },
         'rule': 'one run = one sampled component tree (spec) x knobs (buffer size, pool policy, writer kind, sticky/one-shot fault, caller-owned buffer); per run EVERY '
                 'expression / nested-component fault point, pre-cancelled context, cancellation at every fault point, and writer faults (short, zero, short-without-error) '
@@ -98,7 +98,7 @@ PROPS = {
         'builds': {'default': {}},
         'tiers': {
             'quick': {'runs': 600, 'params': {'max_chunks': 6}, 'per_run_timeout': 5.0},
-            'thorough': {'runs': 20000, 'params': {'max_chunks': 10}, 'per_run_timeout': 10.0, 'shrink_budget_s': 300},
+            'thorough': {'runs': 40000, 'params': {'max_chunks': 10}, 'per_run_timeout': 10.0, 'shrink_budget_s': 300},
         },
         'rule': 'one run = one sampled component (0..N chunks of sizes 0 B..20 KB, hand-written or generated root, optional generated tree in front) x ALL 150 handler '
                 'configurations (status unset/200/201/404/500 x content type default/2 custom x error handler unset/status+body/body only/nothing/headers+status+body x '
@@ -114,7 +114,7 @@ PROPS = {
         'builds': {'default': {}},
         'tiers': {
             'quick': {'runs': 6000, 'params': {'max_nodes': 30, 'max_contexts': 4, 'max_steps': 2000}, 'per_run_timeout': 5.0},
-            'thorough': {'runs': 250000, 'params': {'max_nodes': 60, 'max_contexts': 5, 'max_steps': 5000}, 'per_run_timeout': 10.0, 'shrink_budget_s': 300},
+            'thorough': {'runs': 1500000, 'params': {'max_nodes': 60, 'max_contexts': 5, 'max_steps': 5000}, 'per_run_timeout': 10.0, 'shrink_budget_s': 300},
         },
         'rule': 'one run = a finite universe (2-7 script values over 5 script templates incl. JSFuncCall, 2-5 css components, 1-3 once handles, some created WithComponent) and '
                 '1-4 contexts, each hosting 1-3 sequential renders of tape-drawn use trees (script component, on* attributes single/double/conditional/hx-on, class expressions '
@@ -133,7 +133,7 @@ PROPS = {
         'builds': {'default': {}},
         'tiers': {
             'quick': {'runs': 8000, 'params': {'max_nodes': 40, 'max_contexts': 3, 'max_steps': 2000}, 'per_run_timeout': 5.0},
-            'thorough': {'runs': 300000, 'params': {'max_nodes': 80, 'max_contexts': 4, 'max_steps': 5000}, 'per_run_timeout': 10.0, 'shrink_budget_s': 300},
+            'thorough': {'runs': 1500000, 'params': {'max_nodes': 80, 'max_contexts': 4, 'max_steps': 5000}, 'per_run_timeout': 10.0, 'shrink_budget_s': 300},
         },
         'rule': 'one run = 1-3 contexts (tasks interleaved at writer seams), each rendering 1-2 tape-drawn call trees into one writer: calls with / without block x callees '
                 '{slot, slot twice, no slot, pass-down, slot-around, hand-written that renders children 0-2 times, once handle, templ.Flush, writer-swapping wrapper, '
@@ -155,7 +155,7 @@ PROPS = {
         ],
         'tiers': {
             'quick': {'runs': 4000, 'stage_runs': {'race': 1500}, 'params': {'max_nodes': 10, 'max_tasks': 6, 'max_renders': 4, 'max_steps': 1500}, 'per_run_timeout': 5.0},
-            'thorough': {'runs': 150000, 'stage_runs': {'race': 40000}, 'params': {'max_nodes': 16, 'max_tasks': 8, 'max_renders': 5, 'max_steps': 4000}, 'per_run_timeout': 10.0, 'shrink_budget_s': 300},
+            'thorough': {'runs': 600000, 'stage_runs': {'race': 100000}, 'params': {'max_nodes': 16, 'max_tasks': 8, 'max_renders': 5, 'max_steps': 4000}, 'per_run_timeout': 10.0, 'shrink_budget_s': 300},
         },
         'rule': 'one run = N tasks x M renders (own component, shared component value, or templ.Handler request) over shared once handles, pools and (dev-mode runs) the '
                 'text-file cache, parked at every writer Write/Flush and expression evaluation; stage main: one task released at a time by the tape on the adversarial pool; '
@@ -195,7 +195,7 @@ PROPS = {
         'builds': {'default': {}},
         'tiers': {
             'quick': {'runs': 6000, 'families': 40, 'params': {'max_actions': 40}, 'per_run_timeout': 5.0},
-            'thorough': {'runs': 200000, 'families': 250, 'params': {'max_actions': 120}, 'per_run_timeout': 10.0, 'shrink_budget_s': 300},
+            'thorough': {'runs': 120000, 'families': 250, 'params': {'max_actions': 120}, 'per_run_timeout': 10.0, 'shrink_budget_s': 300},
         },
         'rule': 'prep draws (from VERIF_SEED) N families of template variants v0->..->vk (k<=5) by the edit operators of the statement (static text edits incl. quotes, backslashes, '
                 'newlines, non-ASCII and control bytes; attribute renames among title/data-*/class/style/id/alt and to href; moving an expression between text, attribute, script, '
@@ -216,7 +216,7 @@ PROPS = {
         'builds': {'default': {}},
         'tiers': {
             'quick': {'runs': 3000, 'params': {'max_actions': 120, 'max_edits': 40, 'max_steps': 6000}, 'per_run_timeout': 10.0},
-            'thorough': {'runs': 100000, 'params': {'max_actions': 400, 'max_edits': 150, 'max_steps': 20000}, 'per_run_timeout': 30.0, 'shrink_budget_s': 300},
+            'thorough': {'runs': 400000, 'params': {'max_actions': 400, 'max_edits': 150, 'max_steps': 20000}, 'per_run_timeout': 30.0, 'shrink_budget_s': 300},
         },
         'rule': 'one run = an editor history (didOpen of a small random or real templ document, then up to N didChange notifications with 1-4 changes each: full replace, '
                 'insert, delete, replace, single- and multi-line, at 0:0, at the very end, positions beyond line/document end, plus occasional didClose/reopen) encoded by the '
@@ -254,7 +254,7 @@ PROPS = {
         'builds': {'default': {}},
         'tiers': {
             'quick': {'runs': 6000, 'params': {'max_clients': 5, 'max_actions': 40, 'max_steps': 600}},
-            'thorough': {'runs': 150000, 'params': {'max_clients': 8, 'max_actions': 120, 'max_steps': 2500}, 'shrink_budget_s': 300},
+            'thorough': {'runs': 1500000, 'params': {'max_clients': 8, 'max_actions': 120, 'max_steps': 2500}, 'shrink_budget_s': 300},
         },
         'rule': 'one run = one tape-driven schedule of connect/broadcast/release/fail/cancel/stall/advance actions against the real sse.Handler '
                 'behind proxy.Handler inside a synctest bubble; distinct = distinct event-log hash; non-trivial = at least one client and one '
